@@ -546,7 +546,6 @@ func verifLemmaSourceConnected(o *IPFSLog, A iface.IPFSLogOrderedEntries) {
 //@ @wf ensures [merged-entries-are-the-source-objects] err == nil && size < 0 && l != nil && otherLog != nil && otherLog.(*IPFSLog) != l ==> forall k string :: has(ent(l), k) && !old(has(ent(l), k)) ==> old(has(ent(otherLog.(*IPFSLog)), k)) && ent(l)[k] == old(ent(otherLog.(*IPFSLog))[k])
 //@ @wf ensures [merge-leaves-the-source-untouched] l != nil && otherLog != nil && otherLog.(*IPFSLog) != l ==> otherLog.(*IPFSLog).heads == old(otherLog.(*IPFSLog).heads) && otherLog.(*IPFSLog).Entries == old(otherLog.(*IPFSLog).Entries) && otherLog.(*IPFSLog).Next == old(otherLog.(*IPFSLog).Next) && otherLog.(*IPFSLog).ID == old(otherLog.(*IPFSLog).ID) && (forall k string :: has(ent(otherLog.(*IPFSLog)), k) == old(has(ent(otherLog.(*IPFSLog)), k)) && ent(otherLog.(*IPFSLog))[k] == old(ent(otherLog.(*IPFSLog))[k]) && has(hds(otherLog.(*IPFSLog)), k) == old(has(hds(otherLog.(*IPFSLog)), k)) && hds(otherLog.(*IPFSLog))[k] == old(hds(otherLog.(*IPFSLog))[k]) && has(idx(otherLog.(*IPFSLog)), k) == old(has(idx(otherLog.(*IPFSLog)), k)) && idx(otherLog.(*IPFSLog))[k] == old(idx(otherLog.(*IPFSLog))[k]))
 //@ @wf ensures [merge-replaces-only-the-heads-map-by-a-new-one] l != nil && size < 0 ==> l.Entries == old(l.Entries) && l.Next == old(l.Next) && (l.heads == old(l.heads) || (fresh(l.heads) && fresh(om(l.heads).values)))
-//@ @wf ensures [merge-leaves-the-source-a-valid-log] l != nil && otherLog != nil && otherLog.(*IPFSLog) != l ==> logInv(otherLog.(*IPFSLog))
 //@ @wf ensures [merge-keeps-the-logs-separate] l != nil && otherLog != nil && otherLog.(*IPFSLog) != l ==> sepLogs(l, otherLog.(*IPFSLog))
 //@ @wf ensures [merge-with-itself-or-another-log-id-changes-nothing] err == nil && l != nil && otherLog != nil && (otherLog.(*IPFSLog) == l || l.ID != otherLog.(*IPFSLog).ID) ==> l.heads == old(l.heads) && l.Entries == old(l.Entries) && (forall k string :: has(ent(l), k) == old(has(ent(l), k)) && has(hds(l), k) == old(has(hds(l), k)))
 //@   replay joinsize
@@ -697,6 +696,10 @@ func verifLemmaMergeOrderIrrelevant(a, b, c *IPFSLog) (error, error) {
 //@ func verifLemmaMergeIdempotent
 //@   lemma
 //@   requires replica(a) && replica(b) && replicaPair(a, b)
+//@   assert "_, e1 := a.Join(b, -1)" [source-keeps-its-entry-index] validEntries(b.Entries)
+//@   assert "_, e1 := a.Join(b, -1)" [source-keeps-its-heads] validEntries(b.heads)
+//@   assert "_, e1 := a.Join(b, -1)" [source-keeps-its-reverse-index] isOM(b.Next) && sepMaps(b)
+//@   assert "_, e1 := a.Join(b, -1)" [source-is-untouched] logInv(b)
 //@   ensures [repeating-a-merge-changes-no-entry-and-no-head] result4 == nil && result5 == nil ==> result0 == result1 && result2 == result3
 func verifLemmaMergeIdempotent(a, b *IPFSLog, k string) (bool, bool, bool, bool, error, error) {
 	_, e1 := a.Join(b, -1)
